@@ -509,21 +509,11 @@ func ruleCancelAwareWaits(c *Ctx, dv *dev) {
 						}
 					}
 					// the select must be on every cycle: its block dominates the back-edge source
+					why := "unbounded loop in a helper goroutine that can iterate without looking at ctx.Done(): it would outlive the device"
 					if okLoop {
-						okLoop = false
-						for blk := range body {
-							for _, in := range blk.Instrs {
-								if sel, ok := in.(*ssa.Select); ok && blockDominatesOrSame(blk, b) {
-									for _, st := range sel.States {
-										if isCtxDone(st.Chan) {
-											okLoop = true
-										}
-									}
-								}
-							}
-						}
+						okLoop, why = loopLeavesOnCancel(s, b, isCtxDone)
 					}
-					c.Check(okLoop, "R16.3", key, c.P.Pos(firstPos(s)), "every iteration passes a select with <-ctx.Done()", "unbounded loop in a helper goroutine that can iterate without looking at ctx.Done(): it would outlive the device")
+					c.Check(okLoop, "R16.3", key, c.P.Pos(firstPos(s)), "every iteration passes a select with <-ctx.Done(), whose case leaves the loop", why)
 				}
 			}
 		}
@@ -1017,4 +1007,130 @@ func ruleNoStrayGoroutines(c *Ctx, dv *dev) {
 		bad = "a goroutine is started outside ProcessEvents' joined helpers (" + strings.Join(stray, "; ") + "): nothing waits for it when the device ends, it may still emit to the shared MIDI output after ProcessEvents returned"
 	}
 	c.Check(bad == "", "R16.9", key, c.P.Pos(pe.Pos()), fmt.Sprintf("%d go statement(s) in package device, all in ProcessEvents (joined through the WaitGroup, R16.2)", n), bad)
+}
+
+// loopLeavesOnCancel: the loop (header, latch = source of the back edge) passes, on every cycle, a select with a
+// cancellation case, and the code that runs when that case is taken leaves the loop (a `break` that only leaves the
+// select does not).
+func loopLeavesOnCancel(header, latch *ssa.BasicBlock, isDone func(ssa.Value) bool) (bool, string) {
+	body := loopBody(header, latch)
+	found := false
+	why := "unbounded loop that can iterate without looking at ctx.Done()"
+	for blk := range body {
+		for _, in := range blk.Instrs {
+			sel, ok := in.(*ssa.Select)
+			if !ok || !blockDominatesOrSame(blk, latch) {
+				continue
+			}
+			for k, st := range sel.States {
+				if !isDone(st.Chan) {
+					continue
+				}
+				caseBlk := selectCaseBlock(sel, k)
+				if caseBlk == nil {
+					found = true // shape not recognised: keep the weaker verdict (the case exists on every cycle)
+					continue
+				}
+				// can the code of the cancellation case get back to the loop header without leaving the body?
+				seen := map[*ssa.BasicBlock]bool{}
+				stack := []*ssa.BasicBlock{caseBlk}
+				stays := false
+				for len(stack) > 0 && !stays {
+					x := stack[len(stack)-1]
+					stack = stack[:len(stack)-1]
+					if seen[x] || !body[x] {
+						continue
+					}
+					seen[x] = true
+					for _, nx := range x.Succs {
+						if nx == header {
+							// arriving at the header with the loop's flag cleared (`running = false`) leaves the loop there
+							if !headerExitsFrom(header, x, body) {
+								stays = true
+							}
+							continue
+						}
+						stack = append(stack, nx)
+					}
+				}
+				if caseBlk == header {
+					stays = true
+				}
+				if stays {
+					why = "the <-ctx.Done() case of the loop's select does not leave the loop (a `break` inside a select leaves only the select): after cancellation the loop keeps iterating"
+				} else {
+					found = true
+				}
+			}
+		}
+	}
+	return found, why
+}
+
+// selectCaseBlock: the block executed when case k of the select was chosen.
+func selectCaseBlock(sel *ssa.Select, k int) *ssa.BasicBlock {
+	refs := sel.Referrers()
+	if refs == nil {
+		return nil
+	}
+	for _, r := range *refs {
+		ex, ok := r.(*ssa.Extract)
+		if !ok || ex.Index != 0 || ex.Referrers() == nil {
+			continue
+		}
+		for _, rr := range *ex.Referrers() {
+			bo, ok := rr.(*ssa.BinOp)
+			if !ok || bo.Op != token.EQL {
+				continue
+			}
+			kc, ok := bo.Y.(*ssa.Const)
+			if !ok || kc.Value == nil || int(kc.Int64()) != k || bo.Referrers() == nil {
+				continue
+			}
+			for _, r3 := range *bo.Referrers() {
+				if ifi, ok := r3.(*ssa.If); ok {
+					return ifi.Block().Succs[0]
+				}
+			}
+		}
+	}
+	return nil
+}
+
+// headerExitsFrom: the loop header tests a flag that is a phi in the header, and on the edge from pred the flag has the
+// constant value that makes the test leave the loop.
+func headerExitsFrom(header, pred *ssa.BasicBlock, body map[*ssa.BasicBlock]bool) bool {
+	ifi, ok := header.Instrs[len(header.Instrs)-1].(*ssa.If)
+	if !ok || len(header.Succs) != 2 {
+		return false
+	}
+	cond := ifi.Cond
+	neg := false
+	for {
+		u, ok := cond.(*ssa.UnOp)
+		if !ok || u.Op != token.NOT {
+			break
+		}
+		cond, neg = u.X, !neg
+	}
+	phi, ok := cond.(*ssa.Phi)
+	if !ok || phi.Block() != header {
+		return false
+	}
+	for i, p := range header.Preds {
+		if p != pred || i >= len(phi.Edges) {
+			continue
+		}
+		k, ok := phi.Edges[i].(*ssa.Const)
+		if !ok || k.Value == nil || k.Value.Kind() != constant.Bool {
+			return false
+		}
+		v := constant.BoolVal(k.Value) != neg // value of the tested condition
+		taken := header.Succs[1]
+		if v {
+			taken = header.Succs[0]
+		}
+		return !body[taken]
+	}
+	return false
 }
